@@ -29,6 +29,9 @@ KINDS = (
     "filter", "join_entity", "join_pair", "outerjoin_pair", "aliased_join", "of_type", "any", "not_any", "any_nocrit", "has", "not_has",
     "m2m_any", "contains", "rel_eq", "rel_is_none", "rel_ne", "subquery_join", "group_entity", "group_col", "exists", "in_subquery",
     "scalar_subquery", "union_from_statement", "union_aliased", "two_hop_join", "two_hop_any",
+    # single-table inheritance entities / aliases, explicit joins of the m2m secondary table
+    "sti_entity", "sti_two_aliases", "sti_entity_plus_alias", "sti_two_aliases_nojoin", "sti_entity_plus_alias_nojoin", "sti_columns_two_aliases", "sti_join_of_type", "sti_any_of_type", "sti_outerjoin_alias",
+    "m2m_secondary_join_any", "m2m_secondary_join_contains", "m2m_secondary_join_not_any",
 )
 
 
@@ -170,6 +173,72 @@ def queries(case, classes, data, session):
             return select(A).from_statement(u), core, ref, False, None
         Au = aliased(A, u.subquery())
         return select(Au).order_by(Au.id), core, ref, True, None
+    BSub = A._verif_extras["BSub"]
+    SUB = [r for r in BR if r["kind"] == "bs"]
+    if kind == "sti_entity":
+        return (select(BSub).where(BSub.k >= v).order_by(BSub.id), select(b.c.id).where(b.c.kind == "bs").where(b.c.k >= v).order_by(b.c.id), [(r["id"],) for r in SUB if r["k"] >= v], True, None)
+    if kind in ("sti_two_aliases_nojoin", "sti_entity_plus_alias_nojoin", "sti_columns_two_aliases"):
+        # both entities only meet in the WHERE clause (no join()): each needs its own
+        # discriminator criterion
+        B2 = aliased(BSub)
+        B1 = BSub if kind == "sti_entity_plus_alias_nojoin" else aliased(BSub)
+        b1, b2 = b.alias(), b.alias()
+        ref = [(r1["id"], r2["id"]) for r1 in SUB for r2 in SUB if r1["k"] == r2["k"] and r1["id"] <= r2["id"]]
+        ents = (B1.id, B2.id) if kind == "sti_columns_two_aliases" else (B1, B2)
+        orm = select(*ents).where(B1.k == B2.k).where(B1.id <= B2.id).order_by(B1.id, B2.id)
+        core = select(b1.c.id, b2.c.id).where(b1.c.k == b2.c.k).where(b1.c.id <= b2.c.id).where(b1.c.kind == "bs").where(b2.c.kind == "bs").order_by(b1.c.id, b2.c.id)
+        return orm, core, sorted(ref), True, None
+    if kind in ("sti_two_aliases", "sti_entity_plus_alias"):
+        B2 = aliased(BSub)
+        B1 = aliased(BSub) if kind == "sti_two_aliases" else BSub
+        b1, b2 = b.alias(), b.alias()
+        ref = [(r1["id"], r2["id"]) for r1 in SUB for r2 in SUB if r1["a_id"] is not None and r1["a_id"] == r2["a_id"] and r1["id"] <= r2["id"]]
+        orm = select(B1, B2).join(B2, B1.a_id == B2.a_id).where(B1.id <= B2.id).order_by(B1.id, B2.id)
+        core = select(b1.c.id, b2.c.id).join(b2, b1.c.a_id == b2.c.a_id).where(b1.c.id <= b2.c.id).where(b1.c.kind == "bs").where(b2.c.kind == "bs").order_by(b1.c.id, b2.c.id)
+        return orm, core, sorted(ref), True, None
+    if kind == "sti_outerjoin_alias":
+        B2 = aliased(BSub)
+        b2 = b.alias()
+        ref = []
+        for r in AR:
+            subs = [k_ for k_ in SUB if k_["a_id"] == r["id"]]
+            ref += [(r["id"], k_["id"]) for k_ in subs] or [(r["id"], None)]
+        orm = select(A, B2).outerjoin(B2, A.id == B2.a_id).order_by(A.id, B2.id)
+        core = select(a.c.id, b2.c.id).outerjoin(b2, sa.and_(a.c.id == b2.c.a_id, b2.c.kind == "bs")).order_by(a.c.id, b2.c.id)
+        return orm, core, ref, True, None
+    if kind == "sti_join_of_type":
+        ref = [(r["id"], k_["id"]) for r in AR for k_ in SUB if k_["a_id"] == r["id"]]
+        return (select(A.id, BSub.id).join(A.bs.of_type(BSub)).order_by(A.id, BSub.id), select(a.c.id, b.c.id).join(b, a.c.id == b.c.a_id).where(b.c.kind == "bs").order_by(a.c.id, b.c.id), ref, True, None)
+    if kind == "sti_any_of_type":
+        ref = [(r["id"],) for r in AR if any(k_["a_id"] == r["id"] and k_["extra"] is not None and k_["extra"] >= v for k_ in SUB)]
+        core = select(a.c.id).where(exists().where(b.c.a_id == a.c.id).where(b.c.kind == "bs").where(b.c.extra >= v)).order_by(a.c.id)
+        return select(A).where(A.bs.of_type(BSub).any(BSub.extra >= v)).order_by(A.id), core, ref, True, None
+    if kind.startswith("m2m_secondary_join"):
+        tags_of = {}
+        for r in data["atag"]:
+            tags_of.setdefault(r["a_id"], []).append(r["t_id"])
+        tid = 1 + case["pick"] % 4
+        links = sorted((r["a_id"], r["t_id"]) for r in data["atag"] if r["t_id"] >= tid)
+        at2 = atag.alias()
+        if kind == "m2m_secondary_join_contains":
+            tobj = session.get(Tag, 1 + (case["pick"] // 4) % 4)
+            crit_orm = A.tags.contains(tobj)
+            ok = lambda aid: tobj.id in tags_of.get(aid, [])  # noqa: E731
+            crit_core = exists().where(at2.c.a_id == a.c.id).where(at2.c.t_id == tobj.id)
+        else:
+            crit_orm = A.tags.any(Tag.w == v)
+            ok = lambda aid: any(TR[t_]["w"] == v for t_ in tags_of.get(aid, []))  # noqa: E731
+            crit_core = exists().where(at2.c.a_id == a.c.id).where(at2.c.t_id == tag.c.id).where(tag.c.w == v)
+            if kind == "m2m_secondary_join_not_any":
+                crit_orm = ~crit_orm
+                crit_core = ~crit_core
+                ok0 = ok
+                ok = lambda aid: not ok0(aid)  # noqa: E731
+        # the statement itself joins the (un-aliased) secondary table explicitly
+        orm = select(A, atag.c.t_id).join(atag, A.id == atag.c.a_id).where(atag.c.t_id >= tid).where(crit_orm).order_by(A.id, atag.c.t_id)
+        core = select(a.c.id, atag.c.t_id).join(atag, a.c.id == atag.c.a_id).where(atag.c.t_id >= tid).where(crit_core).order_by(a.c.id, atag.c.t_id)
+        ref = [(aid, t_) for aid, t_ in links if ok(aid)]
+        return orm, core, ref, True, None
     if kind == "two_hop_join":
         ckids = lambda bid: [r for r in CR if r["b_id"] == bid]  # noqa: E731
         ref = [(r["id"], cr["id"]) for r in AR for k_ in kids(r["id"]) for cr in ckids(k_["id"]) if cr["v"] >= v]
@@ -314,7 +383,7 @@ def one(ctx, case, names, cases, impl_out, reqs):
 
 def run(ctx):
     ctx.rule = (
-        "26 query kinds x random mapping data (0-8 parents, 0-3 children each incl. orphans, grandchildren, 4 tags) x random criterion values; every kind is run "
+        "38 query kinds (incl. single-table-inheritance entities / two aliases of one subclass / of_type, and statements that explicitly join the many-to-many secondary table next to any() / contains()) x random mapping data (0-8 parents, 0-3 children each incl. orphans, grandchildren, 4 tags) x random criterion values; every kind is run "
         "as select() (30% also as legacy Query with count()/exists()); compared: ORM rows vs Core rows vs Python evaluation over the data vs Lean model (any, "
         "not any, has, contains, join pairs, group count), count(*) and EXISTS vs number of rows; non-trivial = the query returns rows"
     )
